@@ -15,7 +15,9 @@ Definition otree := list (key * oentry).
 
 (* one call fix_deprecated(path, fix, cleanup): the entries each glob() loop yielded, in
    order (one loop: o_ord1 = []), and the tree seen afterwards                          *)
-Record opobs := { o_fix : bool; o_cleanup : bool; o_ord1 : list key; o_ord2 : list key; o_after : otree }.
+(* o_crash: the call was interrupted (a modification of the workspace failed: injected by the driver); the orders are
+   then those of the entries examined until then, the last one being the entry in progress                     *)
+Record opobs := { o_fix : bool; o_cleanup : bool; o_crash : bool; o_ord1 : list key; o_ord2 : list key; o_after : otree }.
 
 Definition subsetZ (a b : list Z) : bool := forallb (fun x => memZ x b) a.
 Definition sameset (a b : list Z) : bool := subsetZ a b && subsetZ b a.
@@ -43,12 +45,21 @@ Definition covered (w : ws) (o : list key) : bool :=
                     | Dir d => negb (d_params d) || memk (fst p) o
                     | Link _ => true end) w.
 
+(* an interrupted call: the tree observed afterwards is one of the states the model says an interruption can leave
+   (model/Deprecate.v `interrupted`; a call without --fix modifies nothing), and the history goes on from that state *)
+Definition after_crash (op : opobs) (w : ws) : option ws :=
+  find (fun w' => tree_agrees w' (o_after op))
+       (if o_fix op then interrupted (o_cleanup op) (o_ord1 op) (o_ord2 op) w else [w]).
+
 Fixpoint replay (w : ws) (ops : list opobs) : bool :=
   match ops with
   | [] => true
   | op :: ops' =>
-      let w' := fix_ws (o_fix op) (o_cleanup op) (o_ord1 op) (o_ord2 op) w in
-      covered w (o_ord2 op) && tree_agrees w' (o_after op) && replay w' ops'
+      if o_crash op then
+        match after_crash op w with Some w' => replay w' ops' | None => false end
+      else
+        let w' := fix_ws (o_fix op) (o_cleanup op) (o_ord1 op) (o_ord2 op) w in
+        covered w (o_ord2 op) && tree_agrees w' (o_after op) && replay w' ops'
   end.
 
 (* the initial tree is given with the recomputed identities (d_recomp) the generator
